@@ -21,6 +21,7 @@ the model with the committed repairs, which is the variant the behavioural probe
 | "every updated test whose parse is error-free passes afterwards" | `update_passes_general`; earlier special case `update_passes_partial`; ingredients `format_normalize_spec` (`normalize_sexp_output (format_sexp s) = s` for every balanced token sequence = what the runtime prints for error-free trees, class membership measured), `normalize_section`, `readbackG`, `trim_section` (CST) | proved for tests the filter lets run, not skipped / other platform / `:error`; for a test with several languages "passes" is stated for the FIRST language (one expectation cannot match two different renderings: inherent, example `fExL`).  "error-free" = the rendering contains neither `ERROR` nor `MISSING` (what the code tests). |
 | "a second update leaves the file byte-identical" | `update_idempotent_general`, `update_idempotent_unfiltered`; special case `update_idempotent_partial`; witnesses that the expectation guard is needed: `idempotent_fails_two_toplevel_expectation`, `format_sexp_quote_state` (code before the quote repair) | proved (bytes) under the hypotheses above; NOT covered: expectations that are not one balanced S-expression (false there), inputs with `===suffix` lines. |
 | "Reading a corpus file and writing it back never merges, splits or drops tests, whatever delimiter lengths and suffixes it uses" | `roundtrip_suffixed` / `parse_write_roundtrip_partial` / `roundtrip_built` (every list of `SimpleS` corrections, all delimiter lengths ≥ 3, every admissible suffix: one entry per correction, in order, same name / attribute text / flags / input / delimiter lengths / expectation read back); `splitIncl_flatten` (reading loses no bytes); exactness witnesses `roundtrip_fails_delimiter_in_input`, `roundtrip_fails_equal_dash_in_output`, `roundtrip_fails_own_suffix_in_input`, `roundtrip_fails_equals_line_unsuffixed`, `roundtrip_fails_untrimmed_name` | proved for WRITTEN files (`parse (write cs)`); "read then write then read" for an arbitrary file `f` follows only when `(parse f)`'s entries satisfy `SimpleS` — that is a hypothesis on `f`, measured per run through the correspondence of `parseFile` with the real `parse_tests` and the judge's `classify`.  Delimiter lengths < 3 are not delimiters. |
+| "… attributes … unchanged" / round trip: attribute FLAGS before = after (round 11, `Round11.lean`, `Round11b.lean`) | `parseHeader_canonical_ws_partial` (the flags `parse_header` returns for ANY header block `opening line :: name lines ++ attribute region ++ closing delimiter` — region = any complete lines starting with a recognised attribute, trailing white space / CRLF / blank lines / unknown `:foo` lines allowed — are `flagsOf name attrsStr`: the "canonical flags" hypothesis of the general theorems, proved from the header's shape; `parseHeader_canonical_partial` = the trimmed special case), `roundtrip_flags_partial`, `roundtrip_flags_of_headers_ws_partial` (`flags (parse (write t)) = flags t`: skip / error / fail-fast / cst / platform / languages), `written_canonical`; lemmas `headerLine_flags`, `foldHeader_flags`, `trimEnd_lines`, `foldHeader_trimLast` | `_partial`: name / attribute lines that are `===` runs with a foreign suffix are excluded (`NoDelim '='`); an argument-less `:platform` / `:language` line in the NAME region is excluded because the statement is false there for the real code (attribute text empty although later markers set flags).  Tie: the real entries' flags are compared with `parseFile` on every file and `attrs = flagsOf …` is measured on every real entry (`tie:real-entries-have-…-canonical-flags`). |
 | (implicit) the Ok/Err result, directory runs, `strip_sexp_fields` | `updateStatus`, directory mode, `stripSexpFields` — modelled and corresponded, no theorem | correspondence only |
 
 Judge-only strengthening of "rewrites only expected outputs" (no theorem beyond `updateEntry_spec`): clause `passing-changed` — a test
